@@ -394,14 +394,14 @@ def render(prog, carrier, running=False, first_line=1, py=(3, 12)):
     r = Rendered()
     r.lines = [""] * (first_line - 1)
     head = {"gen": "def prog(env):", "func": "def prog(env):", "coro": "async def prog(env):",
-            "agen": "async def prog(env):"}[carrier]
+            "agen": "async def prog(env):", "ageny": "async def prog(env):"}[carrier]
     r.lines.append(head)
     r.lines.append("    kname = 'kn'; kzero = 0; unset = None")
     pad = bool(prog.get("pad"))
     if pad:
         r.lines.append("    _pad = [" + ", ".join("G%d" % k for k in range(300)) + "]")
     r.lines.append("    def lfn(*a): return env.ns")
-    if carrier == "agen":
+    if carrier in ("agen", "ageny"):
         r.lines.append("    if env.never: yield 0")
     if carrier == "gen" and running:
         r.lines.append("    if env.never: yield 0")
@@ -413,8 +413,8 @@ def render(prog, carrier, running=False, first_line=1, py=(3, 12)):
     def susp(ind):
         if running:
             emit(ind, "env.probe()")
-        elif carrier == "gen":
-            emit(ind, "yield 'S'")
+        elif carrier in ("gen", "ageny"):
+            emit(ind, "yield 'S'")        # ageny: an async generator suspended at its OWN yield
         else:
             emit(ind, "await env.trap()")
 
@@ -443,9 +443,9 @@ def render(prog, carrier, running=False, first_line=1, py=(3, 12)):
         elif k == "susp":
             susp(ind)
         elif k == "ret_k":
-            emit(ind, "return" if carrier == "agen" else "return 7")
+            emit(ind, "return" if carrier in ("agen", "ageny") else "return 7")
         elif k == "ret_v":
-            emit(ind, "return" if carrier == "agen" else "return env.value()")
+            emit(ind, "return" if carrier in ("agen", "ageny") else "return env.value()")
         elif k == "raise":
             emit(ind, "raise env.Boom()")
         elif k in ("break", "continue"):
